@@ -16,7 +16,8 @@ package main
 //                                                       (else missed:<Type>@<Parent.Field>)
 //   - no node is presented before (one of) its parent(s) (else order:<Type>@<Parent.Field>)
 //   - with a callback that fails at its k-th call, Walk returns that very error
-//     and the callback is never invoked again           (else abort-*:...)
+//     (the same error value: err == stop; a new error wrapping it is not "that
+//     error") and the callback is never invoked again  (else abort-*:...)
 //   - Walk does not panic                               (else walk-panic:<site>)
 //   - what the callback is handed is a node: a nil interface, a typed nil pointer
 //     (a nil *ast.StmtsStmt stored in an ast.Stmt field passes every `== nil`
@@ -31,7 +32,10 @@ package main
 // in every block of every block-holding template, every degenerate block content
 // — empty statements only, newlines only, comments only, empty statements around
 // real ones — in every block hole and at top level), the repository's own script
-// corpus, and PRNG-driven nested programs built from the same templates.
+// corpus, and PRNG-driven nested programs built from the same templates; and
+// (c17_deep.go) programs nested hundreds to thousands of levels deep through every
+// expression hole and every block hole of the templates, long operator chains and
+// lists of thousands of members.
 
 import (
 	"errors"
@@ -768,6 +772,11 @@ func c17Check(c *wk.Case, src string, root ast.Stmt, whole bool, origin string) 
 	if len(nodes) == 0 {
 		return
 	}
+	deep := strings.HasPrefix(origin, "deep")
+	var cellSeen map[string]bool // deep phases: a cell is counted once per program, not once per node
+	if deep {
+		cellSeen = map[string]bool{}
+	}
 	slotOf := map[interface{}]string{}          // first reflected slot of a node
 	parents := map[interface{}][]int{}          // node -> indices of its entries (one per reflected parent edge)
 	children := map[interface{}][]interface{}{} // node -> reflected children
@@ -779,8 +788,13 @@ func c17Check(c *wk.Case, src string, root ast.Stmt, whole bool, origin string) 
 		if n.Parent != nil {
 			children[n.Parent] = append(children[n.Parent], n.Node)
 		}
-		if whole {
+		if whole && !deep {
 			c.Tag("cell:" + c17TypeName(n.Node) + "@" + n.Slot)
+		} else if whole {
+			if cell := c17TypeName(n.Node) + "@" + n.Slot; !cellSeen[cell] {
+				cellSeen[cell] = true
+				c.Tag("cell:" + cell)
+			}
 		}
 	}
 
@@ -950,6 +964,14 @@ func c17Check(c *wk.Case, src string, root ast.Stmt, whole bool, origin string) 
 		if c.Tier == "thorough" {
 			n = 48
 		}
+		if deep {
+			// the programs of the deep phases make thousands of calls each; the first two,
+			// the last two and four (thorough: twelve) drawn positions
+			n = 4
+			if c.Tier == "thorough" {
+				n = 12
+			}
+		}
 		pick := map[int]bool{1: true, 2: true, total: true, total - 1: true}
 		for len(pick) < n+4 && len(pick) < total {
 			pick[1+c.Rng.Intn(total)] = true
@@ -984,8 +1006,15 @@ func c17Check(c *wk.Case, src string, root ast.Stmt, whole bool, origin string) 
 					k, at, r2.calls-k, c17TypeName(r2.after), where, o2.err), src)
 		case o2.err == nil:
 			c17Viol(c, "abort-error-lost:"+at, fmt.Sprintf("callback returned an error at call %d (%s); Walk stopped but returned nil", k, at), src)
-		case !errors.Is(o2.err, stop):
-			c17Viol(c, "abort-error-replaced:"+at, fmt.Sprintf("callback returned %q at call %d (%s); Walk returned a different error %q", stop.Error(), k, at, o2.err.Error()), src)
+		case o2.err != stop:
+			// "returns that error": the very error value the callback returned, not another
+			// error that mentions, copies or wraps it (a caller comparing err == itsSentinel,
+			// as one does with io.EOF-style sentinels, must see it).
+			how := "a different error"
+			if errors.Is(o2.err, stop) {
+				how = "a new error that wraps it"
+			}
+			c17Viol(c, "abort-error-replaced:"+at, fmt.Sprintf("callback returned %q at call %d (%s); Walk returned %s: %q (%T)%s", stop.Error(), k, at, how, o2.err.Error(), o2.err, c17Enclosing(nodes, parents, rec.seq[k-1])), src)
 		}
 	}
 	c.Count("abort_points_checked", len(ks))
@@ -994,7 +1023,11 @@ func c17Check(c *wk.Case, src string, root ast.Stmt, whole bool, origin string) 
 	// tree, and of this very tree) and walks running on other goroutines at the
 	// same time must not change what this walk presents
 	c17Overlap++
-	if whole && o.err == nil && !o.panicked && (c.Tier == "thorough" || c17Overlap%3 == 0 || total > 120) {
+	if deep && len(parents) > 2000 {
+		// deep phases: the overlapping walks (five more recorded walks of the tree) are
+		// run for the smaller trees only; matrix/corpus/gen are not affected
+		c.Count("overlapping_walks_skipped_large_deep_tree", 1)
+	} else if whole && o.err == nil && !o.panicked && (c.Tier == "thorough" || c17Overlap%3 == 0 || total > 120) {
 		other := c17OtherTree()
 		nop := func(interface{}) error { return nil }
 		same := func(seq []interface{}) string {
@@ -1100,6 +1133,33 @@ func c17Check(c *wk.Case, src string, root ast.Stmt, whole bool, origin string) 
 	}
 }
 
+// c17Enclosing names the statements that enclose node x (innermost first), for the
+// detail text of an abort violation: where in the program the callback failed.
+func c17Enclosing(nodes []astx.NodeInfo, parents map[interface{}][]int, x interface{}) string {
+	if !c17Comparable(x) {
+		return ""
+	}
+	var chain []string
+	for hop := 0; hop < 100000; hop++ {
+		idxs, ok := parents[x]
+		if !ok || len(idxs) == 0 {
+			break
+		}
+		p := nodes[idxs[0]].Parent
+		if p == nil {
+			break
+		}
+		if tn := c17TypeName(p); strings.HasSuffix(tn, "Stmt") && tn != "StmtsStmt" && len(chain) < 6 {
+			chain = append(chain, tn)
+		}
+		x = p
+	}
+	if len(chain) == 0 {
+		return ""
+	}
+	return "; the node lies inside " + strings.Join(chain, " < ")
+}
+
 var c17Overlap int
 
 var (
@@ -1150,7 +1210,16 @@ func c17Program(c *wk.Case, src, origin string) bool {
 		}
 		return true
 	}
-	n := len(astx.Nodes(tree))
+	n := 0
+	if strings.HasPrefix(origin, "deep") {
+		if n = c17UnfoldedSize(tree, c17UnfoldLimit); n >= c17UnfoldLimit {
+			// a DAG whose unfolding is out of proportion to the source (see c17UnfoldedSize): not judged
+			c.Excluded(origin + "-shared-nodes-unfold-beyond-limit")
+			return true
+		}
+	} else {
+		n = len(astx.Nodes(tree))
+	}
 	c.Eval(src, n >= 3)
 	c.Tag("programs:" + origin)
 	c17Check(c, src, tree, true, origin)
@@ -1309,6 +1378,11 @@ func init() {
 			if tier == "thorough" {
 				nGen = 100000
 			}
+			nDeep := len(c17DeepList())
+			nDeepGen := 64
+			if tier == "thorough" {
+				nDeepGen = 3000
+			}
 			return fw.Plan{
 				Level: "exploration",
 				Rule: "phase matrix (deterministic): every expression template (one per grammar production) placed in every expression hole of every statement/expression template, " +
@@ -1318,6 +1392,10 @@ func init() {
 					"function literals with degenerate bodies in every expression hole; its last case demands that every node type of ast/stmt.go, ast/expr.go, ast/operator.go " +
 					"and every child-holding field occurred (no-coverage:<type> otherwise). phase corpus: every script of the repository (tests, examples) that parses. " +
 					"phase gen: PRNG nesting of the same templates (depth<=4, 1-4 top-level statements; empty blocks are sometimes runs of empty statements/blank lines/comments, one statement list in six gets empty statements before/between/after its members). " +
+					"phase deep (deterministic): every expression template nested in itself through each of its expression holes, raw and with the child parenthesised, 500..3000 levels (depths rotate over 500,1200,2000,3000,800,1001,1030,2600,1500,2048), " +
+					"in rotating statement contexts, with an operator-rich payload at the bottom and operator expressions in the holes off the spine; every block-holding template nested in itself through each block hole, 300..2000 levels; " +
+					"operator chains of 1000..3000 operators; lists (statements, arguments, array/map members, else-if arms, switch cases, assignment sides, return/var lists) of 1000..3000 members. " +
+					"phase deepgen: PRNG spines mixing 1-11 (template, hole) pairs per program, depth 500..3000 (block spines 200..1500), random fillers and payload; in both deep phases the abort sweep draws 8 positions (thorough 16) and the overlapping-walk part is run for trees of at most 2000 nodes only; a program whose shared nodes (`x += e` holds x twice) make the unfolded tree exceed 600000 entries is excluded. " +
 					"For every program: node set + parent relation by reflection (astx) versus the sequence " +
 					"astutil.Walk presents; a panic of Walk (walk-panic:<site>) and a callback argument that is nil, a typed nil pointer (presented-nil:<Type>) or no node value at all (presented-non-node:<Type>) are violations; " +
 					"after a Walk error or panic every statement of the program is judged again on its own; then the callback fails at call k for every k (programs with <=64 calls) or a PRNG sample of k. " +
@@ -1328,13 +1406,18 @@ func init() {
 					"extra values presented by Walk that are not nodes of the tree (fabricated CallExpr of an anonymous call) are allowed as long as they are well-formed nodes: non-nil pointers to statement/expression/operator structs of package ast",
 					"a nil interface or typed nil pointer handed to the callback is not a node (the statement speaks of presenting nodes of the tree), so it is reported; a field holding a typed nil pointer contributes no node to the reflected set",
 					"the empty program (nil tree, or a root that is a typed nil pointer) must be walked without error, panic or callback argument that is not a node",
-					"a wrapped callback error (errors.Is) counts as 'that error'",
+					"'returns that error' is judged by identity: Walk must return the very error value the callback returned (err == stop); an error that wraps it (errors.Is) or copies its text is a different error",
+					"deep/deepgen: a program nested thousands of levels deep or holding lists of thousands of members is a parseable program like any other; programs the parser rejects (or cannot parse) are outside the domain",
 					"programs that do not parse are outside the domain",
 				},
 				Phases: []fw.Phase{
 					{Name: "matrix", Cases: nFixed + 1, Chunk: (nFixed + 16) / 16, TimeoutS: 600},
 					{Name: "corpus", Cases: c17CorpusCases, Chunk: 2, TimeoutS: 600},
 					{Name: "gen", Cases: nGen, Chunk: (nGen + 63) / 64, TimeoutS: 900},
+					// deep trees: few workers at a time, address space bounded (a runaway input must
+					// kill its own worker, not the machine)
+					{Name: "deep", Cases: nDeep, Chunk: (nDeep + 15) / 16, Jobs: 2, MemMB: 3072, TimeoutS: 900},
+					{Name: "deepgen", Cases: nDeepGen, Chunk: (nDeepGen + 15) / 16, Jobs: 2, MemMB: 3072, TimeoutS: 900},
 				},
 			}
 		},
@@ -1359,6 +1442,10 @@ func init() {
 				for i := c.Index; i < len(sc); i += c17CorpusCases {
 					c17Program(c, sc[i], "corpus")
 				}
+			case "deep":
+				c17RunDeep(c)
+			case "deepgen":
+				c17RunDeepGen(c)
 			case "gen":
 				g := &c17Gen{r: c.Rng}
 				for n := 0; n < 10; n++ {
